@@ -166,8 +166,30 @@ def run_check(prop, tier, seed, replay=None):
         mod.run(ctx)
         ctx.extra.update(decoy.stats())
         return ctx.finish()
-    except Exception:
+    except Exception as ex:
         traceback.print_exc()
+        # an exception that ESCAPES FROM THE PACKAGE UNDER TEST at a place where the harness uses it without a guard (as its
+        # own oracle, for bookkeeping): the harness only hands over inputs of the property's domain, and on the unchanged tree
+        # the same seeded inputs pass - the code under test failed on a legal input, which every property excludes
+        if not replay:
+            try:
+                import pykdebugparser
+                root = os.path.dirname(os.path.abspath(pykdebugparser.__file__))
+                tb = ex.__traceback__
+                frames = []
+                while tb is not None:
+                    frames.append((os.path.abspath(tb.tb_frame.f_code.co_filename), tb.tb_lineno))
+                    tb = tb.tb_next
+                inside = [f for f in frames if f[0].startswith(root + os.sep)]
+                hsite = [f for f in frames if f[0].startswith(os.path.join(VERIF, 'harness'))]
+                if inside:
+                    ctx.violation('%s/raised-in-code-under-test@%s' % (prop, type(ex).__name__),
+                                  'the package raised %r at %s:%d on an input the harness handed it at %s:%d (unguarded use)'
+                                  % (ex, os.path.relpath(inside[-1][0], os.path.dirname(root)), inside[-1][1],
+                                     os.path.basename(hsite[-1][0]) if hsite else '?', hsite[-1][1] if hsite else 0),
+                                  {'kind': 'escaped-exception', 'exception': repr(ex)[:300]})
+            except Exception:
+                traceback.print_exc()
         if ctx.violations and not replay:
             # the tree under test broke so much that the bookkeeping after the comparisons failed: what was already found counts
             print('note: the check could not complete (exception above); reporting the violations found before it')
